@@ -210,6 +210,15 @@ func buildEntries() []*entry {
 			add("psql", tr.name, v, "label", nil, func(e *env, s string) error {
 				return drain(tr.f(e.pg(), ctx, feed("v1"), load, false, []string{"L0", s}))
 			})
+			// the client string as an id while a label filter is appended to the same
+			// statement, and in both positions at once: the pieces of one statement are
+			// assembled in several steps, and each step sees the text of the earlier ones
+			add("psql", tr.name, v, "id-with-label-filter", nil, func(e *env, s string) error {
+				return drain(tr.f(e.pg(), ctx, feed(s), load, false, []string{"L0", "L1"}))
+			})
+			add("psql", tr.name, v, "id-and-label", nil, func(e *env, s string) error {
+				return drain(tr.f(e.pg(), ctx, feed(s), load, false, []string{s, "L1"})) // one id: psql batches its lookups by time
+			})
 		}
 	}
 	add("psql", "DelVertex", "", "id", nil, func(e *env, s string) error { return e.pg().DelVertex(s) })
@@ -312,6 +321,12 @@ func buildEntries() []*entry {
 		})
 		add("esql", tr.name, "", "label", nil, func(e *env, s string) error {
 			return drain(tr.f(e.es(), ctx, feed(tr.esTable+":1"), false, false, []string{"authored", s}))
+		})
+		add("esql", tr.name, "", "id-with-label-filter", nil, func(e *env, s string) error {
+			return drain(tr.f(e.es(), ctx, feed(tr.esTable+":"+s), false, false, []string{"authored", "likes"}))
+		})
+		add("esql", tr.name, "", "id-and-label", nil, func(e *env, s string) error {
+			return drain(tr.f(e.es(), ctx, feed(tr.esTable+":"+s, tr.esTable+":2"), false, false, []string{s, "authored"}))
 		})
 		add("esql", tr.name, "", "table", nil, func(e *env, s string) error {
 			return drain(tr.f(e.es(), ctx, feed(s+":1"), false, false, nil))
@@ -646,7 +661,7 @@ func runCase(t pbt.TB, c c20Case) {
 
 var hostileFixed = []string{
 	`'`, `''`, `a'b`, `\`, `\'`, `a\`, `\\`, `"`, `a"b`, `--`, `a--b`, `/*`, `*/`, `/* c */`, `;`, `a;b`,
-	`$$`, `$1`, `$q$a$q$`, `E'`, `E'\''`, `U&'\0041'`, `’`, `＇`, "a\nb", "a\tb", "a`b", `a b`, `%s`, `%d`, `)`, `:name`,
+	`$$`, `$1`, `$q$a$q$`, `E'`, `E'\''`, `U&'\0041'`, `’`, `＇`, "a\nb", "a\tb", "a`b", `a b`, `%s`, `%d`, `100%`, `%[2]s`, `%v%v%v`, `%%`, `)`, `:name`,
 	`1 OR 1=1`, `' OR '1'='1`, `x') OR 1=1 --`, `1; DROP TABLE users`, `'; DROP TABLE g_vertices; --`, `x' /* */ OR 'a'='a`,
 	`users WHERE 1=1 -- `,
 }
@@ -681,7 +696,7 @@ func TestExhaustive(t *testing.T) {
 }
 
 var fragments = []string{
-	`'`, `''`, `\`, `\'`, `"`, `--`, `/*`, `*/`, `;`, `$$`, `$1`, `$t$`, `E'`, `’`, `＇`, "\n", "\r", "\t", "`", `%s`, `)`, `(`,
+	`'`, `''`, `\`, `\'`, `"`, `--`, `/*`, `*/`, `;`, `$$`, `$1`, `$t$`, `E'`, `’`, `＇`, "\n", "\r", "\t", "`", `%s`, `%`, `%[1]s`, `%[2]s`, `)`, `(`,
 	` OR 1=1`, ` `, `:`, `::`, `,`, `=`, `U&'`, `\x27`, `\047`, `%27`,
 }
 
